@@ -89,7 +89,12 @@ def run_check(pid, prop, tier, seed):
         rows = [l.rstrip("\n").split("\t") for l in open(corpus) if l.strip() and not l.startswith("#")]
         if rows:
             S.run([r[2] for r in rows], expect=[None if r[0] == "any" else r[0] for r in rows], label=["corpus:" + r[1] for r in rows])
-    stats = prop.generate(S, tier) or {}
+    try:
+        stats = prop.generate(S, tier) or {}
+    except Exception as ex:      # the generator could not interpret what the implementation returned: the tie is broken, not the check
+        import traceback
+        stats = {"generator_exception": repr(ex)[:300]}
+        S.broken = getattr(S, "broken", []) + ["the harness could not interpret the implementation's output (%s): %s" % (type(ex).__name__, traceback.format_exc()[-600:])]
     broken += getattr(S, "broken", [])
     # ---- 3b. history independence (single thread, other orders)
     hn, hfails = S.history_pass(1500 if tier == "quick" else 6000)
